@@ -56,6 +56,15 @@ CLAIMS["C15"] = dict(
     note="HashSet and RoaringBitmap are models (sorted array, <=3 intervals). Quick tier bounds fragments to 2^10 rows, thorough 2^32 (one lookup) and 2^16 (two lookups).",
 )
 
+CLAIMS["C20"] = dict(
+    engine="kani-transplant",
+    technique="bounded symbolic execution of sbbf.rs (bloom filter blocks) and the zone-map pruning decision with Kani+CBMC over symbolic filter states, hashes and statistics",
+    text=("Decides no-false-negatives for the split-block bloom filter as one inductive step from an arbitrary filter state (1..=3 blocks, all u64 "
+          "hashes): an inserted hash is found, inserts never clear a hit, block indices are in range for every block count, and the byte form "
+          "round-trips. N-gram tokenisation and hashing of values are outside; the claim is restricted to these kernels."),
+    note="Hashing (xxhash) and filter sizing are library/float code and not encoded.",
+)
+
 _IO = "truth lives in async object-store/tokio orchestration (crash points, interleavings, listings); Kani/CBMC has no model of tokio or object_store and no pure kernel implies the statement"
 NOT_APPLICABLE.update({
     "C01": "commit atomicity over crash points: " + _IO,
@@ -84,5 +93,5 @@ NOT_APPLICABLE.update({
     "C42": "relocatability is a statement about every path written by every writer being relative; decided by I/O",
 })
 _PLANNED = "planned in DESIGN.md §5 but its check is not built yet, so it is not claimed"
-for _p in ["C09", "C17", "C19", "C20", "C26", "C27", "C28", "C29", "C30", "C32", "C33", "C34", "C35", "C36", "C41", "C43"]:
+for _p in ["C09", "C17", "C19", "C26", "C27", "C28", "C29", "C30", "C32", "C33", "C34", "C35", "C36", "C41", "C43"]:
     NOT_APPLICABLE.setdefault(_p, _PLANNED)
